@@ -90,6 +90,8 @@ def base_scenarios():
     out.append(('forever_vs_deliver', [S1], [dl(S1, 1), CONS], [F, N], 'c09 c10'))
     out.append(('forever_2sig', [S1, S2], [dl(S1, 1), dl(S2, 2), CONS], [F, N, N], 'c09 c10'))
     out.append(('forever_same_sig', [S1], [dl(S1, 1), dl(S1, 2), CONS], [F, N, P, D(0)], 'c09 c10'))
+    # a Forever dropped with a signal of its batch unreported, then a fresh one: creating it looks at the slots again
+    out.append(('forever_dropped_refreshed', [S1, S2], [dl(S1, 1), dl(S2, 2), CONS], [F, N, F, N], 'c09 c10'))
     out.append(('wait_twice', [S1, S2], [dl(S2, 1), dl(S1, 2), CONS], [W, D(0), P, D(1)], 'c09 c10'))
     out.append(('batches_alive', [S1, S2], [dl(S1, 1), dl(S2, 2), CONS], [P, P, B(0), B(1), D(1), D(0)], 'c10'))
     out.append(('add_vs_deliver', [S1], [(4, S2, 0), dl(S2, 1), CONS], [P, D(0), P, D(1)], 'c09 c10'))
@@ -459,6 +461,11 @@ def mon_c10(s, r):
                 # (signals watched from the start only: a delivery that precedes the add_signal of its signal is none of this instance's)
                 if g in s.setup and all(ended.get((g, m), 10 ** 9) < first_cons for m in mks):
                     seq = sorted(mks, key=lambda m: started[(g, m)])
+                    # (only for deliveries that came one AFTER the other: between two that overlap - two threads inside the
+                    # handler at once - there is no delivery order to preserve, and which of more than five is discarded is
+                    # open too; a random schedule of the thorough tier overlapped two and the rule raised a false alarm)
+                    if any(ended[(g, seq[i])] > started[(g, seq[i + 1])] for i in range(len(seq) - 1)):
+                        continue
                     if order.get(g, []) != seq[:5]:
                         viol.append(('burst', -1, 'burst of %d deliveries of signal %d (markers %s) before the consumer started: yielded %s, expected the first 5 in order' % (len(mks), g, seq, order.get(g, []))))
         for g, mks in order.items():
@@ -612,9 +619,13 @@ SWEEP_CONFIGS = [('o', 'p', '-'), ('o', 'p', 's'), ('o', 'p', 't'), ('o', 'p', '
                  # add_signal(SIGUSR2) single-stepped, SIGUSR2 delivered at the boundary
                  ('o', 'a', '-'), ('r', 'a', '-'),
                  # close() of ANOTHER instance single-stepped: the library busy with one instance while a delivery for this one arrives
-                 ('o', 'c', '-'), ('r', 'c', '-'), ('o', 'c', 't'), ('r', 'c', 'ss')]
+                 ('o', 'c', '-'), ('r', 'c', '-'), ('o', 'c', 't'), ('r', 'c', 'ss'),
+                 # the library's handler itself single-stepped while it runs for SIGUSR1: SIGUSR2 really nested (h) / close() of another instance (H)
+                 ('o', 'h', '-'), ('r', 'h', '-'), ('o', 'H', '-'), ('r', 'H', '-')]
+HANDLER_CLOSE_CONFIGS = [('o', 'H', '-'), ('r', 'H', '-')]
 SWEEP_NAMES = {'o': 'SignalOnly', 'r': 'WithRawSiginfo', 'p': 'pending()', 'w': 'wait()', 'f': 'forever().next()', 'a': 'add_signal(SIGUSR2)', 'd': 'drop(instance)',
-               'c': 'close() of another instance'}
+               'c': 'close() of another instance', 'h': 'the handler running for SIGUSR1', 'H': 'the handler running for SIGUSR1'}
+SWEEP_EVENT = {'a': 'one more SIGUSR2 delivered', 'h': 'SIGUSR2 delivered (nested)', 'H': 'close() of another instance called'}
 C09_KINDS = ('LOST', 'BLOCKED', 'CRASH')
 C10_KINDS = ('EXTRA', 'UNWATCHED', 'FIELD', 'ORDER', 'CRASH')
 
@@ -622,10 +633,15 @@ C10_KINDS = ('EXTRA', 'UNWATCHED', 'FIELD', 'ORDER', 'CRASH')
 def sweep_one(cfg, konly=None, timeout=240):
     cmd = [common.bin_path('p_nested_iter')] + list(cfg) + ([str(konly)] if konly else [])
     rc, out, _ = common.sh(cmd, timeout=timeout)
-    rows, end = [], None
+    rows, end, waiting = [], None, set()
     for l in out.split('\n'):
         p = l.split(' ', 2)
-        if p[0] == 'K' and len(p) == 3:
+        if p[0] == 'W' and len(p) >= 2 and p[1].strip().isdigit():
+            waiting.add(int(p[1]))       # this child went on to wait() on the OTHER, closed instance
+        elif p[0] == 'X' and len(p) == 3 and int(p[1]) in waiting and p[2].strip() == 'signal 14':
+            rows.append({'k': int(p[1]), 'kinds': ['STRANDED'], 'yields': '',
+                         'verdict': 'wait() on the instance that close() had been called for did not return (killed by the 3 s alarm)'})
+        elif p[0] == 'K' and len(p) == 3:
             verdict, _, rest = p[2].partition(' | ')
             kinds = sorted(set(w for part in verdict[4:].split('; ') for w in [part.split(' ', 1)[0]])) if verdict.startswith('BAD') else []
             rows.append({'k': int(p[1]), 'kinds': kinds, 'verdict': verdict, 'yields': rest})
@@ -652,7 +668,7 @@ def sweep_configs(tier):
                 if pre == '-' and o != 'p':
                     continue
                 cfgs.append((e, o, pre))
-    return cfgs + [('o', 'a', '-'), ('r', 'a', '-')] + [(e, 'c', pre) for e in 'or' for pre in ('-', 's', 't', 'st', 'ss')]
+    return cfgs + [('o', 'a', '-'), ('r', 'a', '-')] + [(e, 'c', pre) for e in 'or' for pre in ('-', 's', 't', 'st', 'ss')] + [(e, o, '-') for e in 'or' for o in 'hH']
 
 
 DROP_CONFIGS = [('o', 'd', '-'), ('r', 'd', '-')]
@@ -677,20 +693,20 @@ def instr_sweep(ctx, want, configs=None, key='instruction_delivery_sweep'):
         for row in res['rows']:
             total += 1
             ctx.evaluations += 1
-            if row['kinds'] == ['BLOCKED']:
+            if row['kinds'] in (['BLOCKED'], ['STRANDED']):
                 # a child killed by its alarm: make sure it was not the machine that stalled - the same boundary
                 # alone, in a fresh process, must block again (the first three per configuration are re-run)
                 confirmed += 1
                 if confirmed <= 3:
                     again = sweep_one(cfg, konly=row['k'], timeout=60)
-                    if not any(r2['k'] == row['k'] and r2['kinds'] == ['BLOCKED'] for r2 in again['rows']):
+                    if not any(r2['k'] == row['k'] and r2['kinds'] == row['kinds'] for r2 in again['rows']):
                         hits['unconfirmed-stall'] = hits.get('unconfirmed-stall', 0) + 1
                         continue
             for kind in row['kinds']:
                 hits[kind] = hits.get(kind, 0) + 1
                 if kind in want and hits[kind] <= 3:
                     ctx.violation({'monitor': 'instr-' + kind, 'exf': e, 'outer': o, 'pre': pre, 'k': row['k']},
-                                  '%s, one more %s delivered after %d instructions of the call: %s [%s]' % (name, 'SIGUSR2' if o == 'a' else 'SIGUSR1', row['k'], row['verdict'], row['yields']),
+                                  '%s, %s after %d instructions of it: %s [%s]' % (name, SWEEP_EVENT.get(o, 'one more SIGUSR1 delivered'), row['k'], row['verdict'], row['yields']),
                                   {'instr_sweep': {'exf': e, 'outer': o, 'pre': pre, 'k': row['k']}, 'observed': row})
     ctx.correspondence('instruction-level delivery sweep ran to the end in all %d configurations' % len(SWEEP_CONFIGS), not incomplete, incomplete[:3])
     ctx.coverage[key] = {'configurations': len(SWEEP_CONFIGS), 'boundaries': total, 'complaints': hits, 'boundaries_per_configuration': per}
@@ -721,15 +737,21 @@ STALE_CONFIGS = [('q', '-'), ('q', 'S'), ('q', 'ST'), ('q', 'TSs'), ('q', 's')]
 C09_POLL_KINDS = ('UNARMED', 'STRANDED')
 CLOSE_NAMES = {'q': 'poll_signal (non-blocking callback)', 'w': 'wait()', 'f': 'forever().next()'}
 C11_KINDS = ('UNARMED', 'STRANDED', 'STICKY', 'ENDLESS', 'ERR', 'BLOCKED', 'CRASH')
+C11_HANDLER_KINDS = ('STRANDED', 'STICKY', 'CRASH')
 
 
 def close_one(cfg, konly=None, timeout=240):
     cmd = [common.bin_path('p_nested_close')] + list(cfg) + ([str(konly)] if konly else [])
     rc, out, _ = common.sh(cmd, timeout=timeout)
-    rows, end = [], None
+    rows, end, waiting = [], None, set()
     for l in out.split('\n'):
         p = l.split(' ', 2)
-        if p[0] == 'K' and len(p) == 3:
+        if p[0] == 'W' and len(p) >= 2 and p[1].strip().isdigit():
+            waiting.add(int(p[1]))       # this child went on to wait() on the OTHER, closed instance
+        elif p[0] == 'X' and len(p) == 3 and int(p[1]) in waiting and p[2].strip() == 'signal 14':
+            rows.append({'k': int(p[1]), 'kinds': ['STRANDED'], 'yields': '',
+                         'verdict': 'wait() on the instance that close() had been called for did not return (killed by the 3 s alarm)'})
+        elif p[0] == 'K' and len(p) == 3:
             verdict, _, rest = p[2].partition(' | ')
             kinds = sorted(set(part.split(' ', 1)[0] for part in verdict[4:].split('; '))) if verdict.startswith('BAD') else []
             rows.append({'k': int(p[1]), 'kinds': kinds, 'verdict': verdict, 'observed': rest})
